@@ -38,6 +38,8 @@ class Impl:
         self.toks = [None] + [ts_lib.Token(t) for t in texts]
         self.ids = {id(t): i for i, t in enumerate(self.toks) if t is not None}
         self.store: Optional[ts_lib.TokenStore] = ts_lib.TokenStore()
+        self.src_list = None
+        self.src_copy = None
 
     def tid(self, tok) -> int:
         return -1 if tok is None else self.ids.get(id(tok), -99)
@@ -49,7 +51,9 @@ class Impl:
             if k == 'empty':
                 self.store = ts_lib.TokenStore()
             elif k == 'from_tokens':
-                self.store = ts_lib.TokenStore.from_tokens([T(i) for i in op[1]])
+                self.src_list = [T(i) for i in op[1]]          # the caller keeps this list object
+                self.src_copy = list(self.src_list)
+                self.store = ts_lib.TokenStore.from_tokens(self.src_list)
             elif k == 'ins_after':
                 self.store.insert_after(T(op[1]), [T(i) for i in op[2]])
             elif k == 'ins_before':
@@ -380,6 +384,11 @@ def run_history(lf: int, texts: list[str], ops: list) -> tuple[list[tuple[Any, d
                 col += len(sx)
         if c08:
             fails.append({'sig': c08[0], 'what': f'after {op}: {c08[1]}', 'where': where})
+        # ---- C07: the store is its own sequence: the list the caller passed to from_tokens stays the caller's
+        if impl.src_list is not None and (len(impl.src_list) != len(impl.src_copy)
+                                          or any(x is not y for x, y in zip(impl.src_list, impl.src_copy))):
+            fails.append({'sig': 'C07:aliases-callers-list', 'what': f'after {op}: the list object passed to from_tokens was changed by a store operation', 'where': where})
+            break
         # ---- C07: the store agrees with the plain list
         if got != ref:
             fails.append({'sig': 'C07:iteration', 'what': f'after {op}: iteration {got} != list {ref}', 'where': where})
